@@ -159,13 +159,13 @@ REQUIRED_BRANCHES = [
     "grammar_path_fast", "grammar_path_slow", "large_vocab_histories", "env_repro_histories",
     # the comparisons / monitors themselves must have run
     "l2_membership_checked", "contract_ok", "hist_ops", "ghist_ops", "large_hist_ops", "l2_nan_weighted_checked",
-    "long_histories",
+    "long_histories", "grammar_unseeded_calls",
 ]
 # (skipped, total, maximal share): a skip that grows beyond its usual share means a monitor is being bypassed
 BOUNDED_SKIPS = [
     ("hist_ops_skipped_tie_order_or_weird", "cases", 0.30),
     ("l2_skipped_weird_params", "calls", 0.10),
-    ("l2_membership_skipped_no_stage_values", "calls", 0.10),
+    ("l2_membership_skipped_no_stage_values", "calls", 0.10),      # (unseeded grammar calls: the path is not observable)
     ("grammar_init_failed", "grammar_histories", 0.05),
     ("contract_nan_weird_params", "calls", 0.05),
 ]
